@@ -26,12 +26,12 @@ from harness.core import coq_str, coq_list
 IMPORTS = ("From Coq Require Import ZArith.\n"
            "From Ford Require Import Base.Str Out.SettingsTypes Gen.Schema Out.Settings Corr.C15.")
 THEOREMS = [
-    "C15_schema_sound", "C15_md_toml_agree", "C15_formats_agree_partial", "C15_formats_agree_refuted",
-    "C15_config_scalar_list_refuted", "C15_precedence", "C15_precedence_chain", "C15_unknown_key_dropped",
-    "C15_unknown_key_refuted_toml", "C15_unknown_key_refuted_config",
-    "C15_ill_typed_md_bool_named", "C15_ill_typed_md_dict_named", "C15_ill_typed_refuted_toml",
-    "C15_ill_typed_refuted_md_int", "C15_ill_typed_refuted_config",
-    "C15_paths_relative_to_project", "C15_paths_anchored", "C15_int_roundtrip",
+    "C15_schema_sound", "C15_int_roundtrip", "C15_md_toml_agree", "C15_md_toml_agree_every_option",
+    "C15_formats_agree_partial", "C15_formats_agree_refuted", "C15_config_scalar_list_refuted",
+    "C15_precedence", "C15_file_over_default", "C15_unknown_key_dropped", "C15_unknown_key_refuted_toml",
+    "C15_unknown_key_refuted_config", "C15_ill_typed_md_bool_named", "C15_ill_typed_md_dict_named",
+    "C15_ill_typed_refuted_toml", "C15_ill_typed_refuted_config", "C15_ill_typed_refuted_md_int",
+    "C15_md_int_error_unnamed", "C15_paths_relative_to_project", "C15_paths_anchored",
 ]
 REGIONS = {1: "config-skips-post-init", 2: "toml-values-unchecked", 3: "config-values-unchecked",
            4: "md-int-error-unnamed", 5: "toml-unknown-key-aborts", 6: "config-unknown-key-silent"}
